@@ -149,10 +149,10 @@ def s_cumsum(ch, T):
 
 @spec("power_special_exponent", "B")
 def s_power_special(ch, T):
-    """Exponents that invite fast paths (2, 1, 3, 0.5, -1), given as Python / NumPy scalars, 0-d or full arrays."""
+    """Exponents that invite fast paths or value-dependent guards (2, 1, 3, 0.5, -1, 0), given as Python / NumPy scalars, 0-d or full arrays."""
     shape = ch.choose("shape", [(), (2,), (2, 2)])
     kx = ch.choose("kind_x", T.kinds_for(shape))
-    yv = ch.choose("exponent", [2.0, 1.0, 3.0, 0.5, -1.0])
+    yv = ch.choose("exponent", [2.0, 1.0, 3.0, 0.5, -1.0, 0.0])
     ky = ch.choose("kind_y", ["py", "np", "0d", "arr"])
     form = ch.choose("form", ["np.power(x, y)", "x ** y"])
     y = {"py": float(yv), "np": onp.float64(yv), "0d": onp.array(yv), "arr": onp.full(shape if shape else (1,), yv)}[ky]
